@@ -70,7 +70,7 @@ func (p *Path) newMapIterIn(m *smap, explore bool) iter {
 	n := len(m.ents)
 	order := make([]*ment, 0, n)
 	if n >= 2 && explore {
-		if p.mapOrderUsed >= p.eng.cfg.MapOrderBudget {
+		if p.mapOrderUsed >= p.cfg.MapOrderBudget {
 			explore = false
 		} else {
 			p.mapOrderUsed++
@@ -80,7 +80,7 @@ func (p *Path) newMapIterIn(m *smap, explore bool) iter {
 		order = append(order, m.ents...)
 		return &mapIter{order: order}
 	}
-	if n <= p.eng.cfg.MapPermMax {
+	if n <= p.cfg.MapPermMax {
 		rest := append([]*ment{}, m.ents...)
 		for len(rest) > 0 {
 			i := p.choose(len(rest))
@@ -89,8 +89,8 @@ func (p *Path) newMapIterIn(m *smap, explore bool) iter {
 		}
 	} else {
 		variant := 0
-		if p.eng.cfg.MapVariants > 1 {
-			nv := p.eng.cfg.MapVariants
+		if p.cfg.MapVariants > 1 {
+			nv := p.cfg.MapVariants
 			if nv > 2*n {
 				nv = 2 * n
 			}
